@@ -43,14 +43,14 @@ theorem validateCodeSigningLeafKeyUsage_eq (n : Nat) (c : Cert) (exts) (h : Exts
 def ekuBody : List Stmt := rangeBody (x509_validateCodeSigningExtendedKeyUsage.body.getD 2 (.opaque ""))
 
 def ekuStore (cv : Val) : Store :=
-  [[("excludedEkus", .list [.int 1, .int 2, .int 4, .int 8, .int 9]), ("cert", cv)]]
+  [[("v1", .list [.int 1, .int 2, .int 4, .int 8, .int 9]), ("v0", cv)]]
 
 /-- the literal `excludedEkus` of the source -/
 def isExcl (x : Nat) : Bool := [1, 2, 4, 8, 9].contains x
 
 theorem ekuStep (fn : String) (cal) (cv : Val) (x : Nat) :
-    (fun st => execBlock ⟨fn, prims sig sigSelf, cal⟩ st ekuBody) ([("certEku", .int (Int.ofNat x))] :: ekuStore cv)
-      = if isExcl x then .ret [.err fn 0 []] else .next ([("certEku", .int (Int.ofNat x))] :: ekuStore cv) := by
+    (fun st => execBlock ⟨fn, prims sig sigSelf, cal⟩ st ekuBody) ([("v2", .int (Int.ofNat x))] :: ekuStore cv)
+      = if isExcl x then .ret [.err fn 0 []] else .next ([("v2", .int (Int.ofNat x))] :: ekuStore cv) := by
   unfold isExcl
   by_cases h1 : x = 1
   · subst h1; simp [ekuBody, rangeBody, x509_validateCodeSigningExtendedKeyUsage, ekuStore, rangeLoop,
@@ -77,7 +77,7 @@ theorem ekuStep (fn : String) (cal) (cv : Val) (x : Nat) :
       h1, h2, h4, h8, h9, e1, e2, e4, e8, e9]
 
 theorem ekuLoop (fn : String) (cal) (cv : Val) : ∀ (ekus : List Nat) (i : Nat),
-    rangeLoop (fun st => execBlock ⟨fn, prims sig sigSelf, cal⟩ st ekuBody) "_" "certEku" i
+    rangeLoop (fun st => execBlock ⟨fn, prims sig sigSelf, cal⟩ st ekuBody) "_" "v2" i
         (ekus.map (fun e => .int (Int.ofNat e))) (ekuStore cv)
       = if ekus.any isExcl then .ret [.err fn 0 []] else .next (ekuStore cv) := by
   intro ekus
